@@ -114,14 +114,16 @@ def readScalarArrayEOF (cfg : Cfg) (s : Scalar) (data : Bytes) (pos : Nat) : Opt
   match s with
   | .pint n sg => some (
       if n = 0 then .error .other else
-      if rest.length % n ≠ 0 then .error .overflow      -- struct.error: unpack requires a buffer of count*size bytes
+      if rest.length % n ≠ 0 then .error .eof           -- `if length != count * cls.size: raise EOFError`
       else .ok (.list (Vals.ofInts ((splitEvery n (rest.length / n) rest).map (decodeInt cfg.endian sg))), endp))
   | .pflt n => some (
       if n = 0 then .error .other else
-      if rest.length % n ≠ 0 then .error .overflow
+      if rest.length % n ≠ 0 then .error .eof
       else .ok (.list (Vals.ofList ((splitEvery n (rest.length / n) rest).map fun b => Val.flt (decodeNat cfg.endian b))), endp))
   | .char => some (.ok (.bytes rest, endp))
-  | .wchar => some (match decodeWchar cfg.endian rest with | .ok v => .ok (v, endp) | .error e => .error e)
+  | .wchar => some (
+      if rest.length % 2 ≠ 0 then .error .eof     -- `if count == EOF and len(data) % 2: raise EOFError`
+      else match decodeWchar cfg.endian rest with | .ok v => .ok (v, endp) | .error e => .error e)
   | _ => none
 
 /-- `_read_0` of the scalar classes: read elements until the zero element; `fuel` bounds the loop by the input length -/
